@@ -16,6 +16,7 @@ P2 = np.array([[2.0, 0.6], [0.6, 1.0]])
 P3 = np.array([[2.0, 0.6, -0.3], [0.6, 1.5, 0.2], [-0.3, 0.2, 1.0]])
 M2, M3 = np.array([0.5, -1.0]), np.array([0.5, -1.0, 0.3])
 YP, SIG2 = 3.0, 4.0
+PBIG = np.linspace(60.0, 140.0, 40)        # diagonal information of the 40-dimensional block
 XC = np.c_[np.ones(6), np.linspace(-1, 1, 6)]
 YC = np.array([0.2, 0.1, 0.7, 0.9, 1.4, 1.3])
 
@@ -44,6 +45,12 @@ class Family:
         elif name == "coupled":      # regression coefficients (IWLS) given a log-scale moved by another kernel
             self.keys, self.init = ["beta"], {"beta": jnp.array([0.1, 0.2], jnp.float32), "ls": jnp.array(0.1, jnp.float32)}
             self.other = ["ls"]
+        elif name == "concentrated":   # a sharply concentrated target, start far in the tail: log ratios of several hundred
+            self.keys, self.init = ["x"], {"x": jnp.array([3.0], jnp.float32)}
+        elif name == "gamma_rw":       # bounded support: proposals outside it have a NaN log-density
+            self.keys, self.init = ["g"], {"g": jnp.array([0.3], jnp.float32)}
+        elif name == "gauss_big":      # a block of 40 coefficients with a large information matrix
+            self.keys, self.init = ["x"], {"x": jnp.asarray(np.linspace(-0.2, 0.2, 40), jnp.float32)}
         elif name == "gamma_coupled":    # positive block (MH) whose rate is moved by another kernel
             self.keys, self.init = ["x"], {"x": jnp.array([1.2, 0.7], jnp.float32), "r": jnp.array(0.2, jnp.float32)}
             self.other = ["r"]
@@ -71,6 +78,12 @@ class Family:
         if n == "gamma_mh":
             x = s["x"]
             return jnp.sum(2.0 * jnp.log(x) - 1.5 * x)
+        if n == "concentrated":
+            return -0.5 * jnp.sum((s["x"] / 0.05) ** 2)
+        if n == "gamma_rw":
+            return jnp.sum(2.0 * jnp.log(s["g"]) - s["g"])
+        if n == "gauss_big":
+            return -0.5 * jnp.sum(jnp.asarray(PBIG, jnp.float32) * s["x"] ** 2)
         if n == "gamma_coupled":
             return jnp.sum(2.0 * jnp.log(s["x"]) - jnp.exp(s["r"]) * s["x"]) - 0.5 * s["r"] ** 2
         if n == "coupled":
@@ -97,6 +110,13 @@ class Family:
             s2 = np.exp(2 * ls)
             lp = -len(YC) * ls - 0.5 * np.sum(r ** 2) / s2 - 0.05 * np.sum(f ** 2) - 0.5 * ls ** 2
             return lp, XC.T @ r / s2 - 0.1 * f, XC.T @ XC / s2 + 0.1 * np.eye(2)
+        if n == "concentrated":
+            return float(-0.5 * np.sum((f / 0.05) ** 2)), None, None
+        if n == "gamma_rw":
+            with np.errstate(invalid="ignore", divide="ignore"):
+                return float(np.sum(2.0 * np.log(f) - f)), None, None
+        if n == "gauss_big":
+            return float(-0.5 * np.sum(PBIG * f ** 2)), -PBIG * f, np.diag(PBIG)
         if n == "gamma_coupled":
             r = float(ctx[0])
             return float(np.sum(2.0 * np.log(f) - np.exp(r) * f) - 0.5 * r ** 2), None, None
@@ -196,7 +216,8 @@ def run(kernel="iwls", family="gauss2", step=0.7, chains=2, seed=0, n_iter=40):
             x, xa = np.asarray(e["obs"][:d], np.float64), np.asarray(e["obs"][d:2 * d], np.float64)
             ctx = e["obs"][2 * d:]
             s = float(e["pre"][0])
-            ev.append({"ev": "moved", "moved": bool(e["moved"]), "before": _vs(x), "after": _vs(xa), "acc": fstr(e["acc"])})
+            ev.append({"ev": "moved", "moved": bool(e["moved"]), "before": _vs(x), "after": _vs(xa), "acc": fstr(e["acc"]),
+                       "code": int(e["code"])})
             if e["moved"]:
                 xp = xa
             elif replay is not None:
@@ -207,13 +228,23 @@ def run(kernel="iwls", family="gauss2", step=0.7, chains=2, seed=0, n_iter=40):
             lpp, gp, Fp = fam.leaves(xp, ctx) if other else fam.leaves(xp)
             rec = {"ev": kernel, "x": _vs(x), "xp": _vs(xp), "s": fstr(s), "acc": fstr(e["acc"]),
                    "lp_x": fstr(lpx), "lp_xp": fstr(lpp), "was_accepted": bool(e["moved"])}
-            if kernel == "iwls":
+            if kernel == "iwls" and family == "gauss_big":
+                # Gaussian proposal log-densities in float64 (diagonal information)
+                def logq(to, frm, g, F):
+                    var = s ** 2 / np.diag(F)
+                    mu = frm + 0.5 * var * g
+                    return float(np.sum(-0.5 * np.log(2 * np.pi * var) - 0.5 * (to - mu) ** 2 / var))
+                rec = {"ev": "iwls_big", "acc": fstr(e["acc"]), "lp_x": fstr(lpx), "lp_xp": fstr(lpp),
+                       "fwd": fstr(logq(xp, x, gx, Fx)), "bwd": fstr(logq(x, xp, gp, Fp)), "was_accepted": bool(e["moved"])}
+            elif kernel == "iwls":
                 rec.update({"g_x": _vs(gx), "F_x": _ms(Fx), "g_xp": _vs(gp), "F_xp": _ms(Fp)})
             if kernel == "mh":
                 rec["corr"] = fstr(float(np.sum(np.log(xp) - np.log(x))))
             ev.append(rec)
         traces.append({"hdr": {"kernel": kernel, "family": family, "step": step, "chain": c, "d": d,
                                "rtol": "3e-3", "atol": "2e-5", "rw_replay_matched": replay is not None,
+                               # the density is finite everywhere and every proposal is a finite point
+                               "regular": family != "gamma_rw",
                                "scenario": {"kernel": kernel, "family": family, "step": step, "chains": chains,
                                             "seed": seed, "n_iter": n_iter}},
                        "ev": ev})
@@ -235,6 +266,10 @@ def jobs(quick=True):
             js.append(dict(kernel="rw", family=f, step=s, seed=len(js)))
     for s in steps:
         js.append(dict(kernel="mh", family="gamma_mh", step=0.5 * s, seed=len(js)))
+    # log ratios far beyond the overflow of exp, NaN log-densities outside the support, a block of 40 coefficients
+    js.append(dict(kernel="rw", family="concentrated", step=0.7, seed=len(js)))
+    js.append(dict(kernel="rw", family="gamma_rw", step=0.9, seed=len(js)))
+    js.append(dict(kernel="iwls", family="gauss_big", step=0.7, seed=len(js)))
     # the block's density depends on a quantity another kernel of the sequence moves between the transitions
     for s in steps:
         js.append(dict(kernel="rw", family="coupled", step=0.5 * s, seed=len(js)))
